@@ -48,6 +48,8 @@ def generate(rng, tier):
             for col in (0, "auto"):
                 cases.append({"stream": "K7", "input": {"text": t, "n_items": 2,
                                                         "fmt": {"indent": ind, "column": col, "trailing": False, "sep": "\n\n"}}})
+    for t in ["@STR\u0130NG{k, a = {b}}", "@comment{x}\n@\u0130{k}\n@string{s = {v}}"]:
+        cases.append({"stream": "K9", "input": {"text": t, "n_items": 2, "fmt": {"indent": "\t", "column": "auto", "trailing": False, "sep": "\n\n"}}})
     return cases
 
 
@@ -103,6 +105,9 @@ def impl(case):
                       (type(b).__name__ == "String" and _bs(b.value)) or
                       (type(b).__name__ == "ExplicitComment" and _bs(b.comment)) for b in l1.blocks):
         rec["oracle"]["known"] = "K7"
+    import re
+    if not ok and "known" not in rec["oracle"] and any(type(b).__name__ == "Entry" and not re.fullmatch(r"\w*", b.entry_type) for b in l1.blocks):
+        rec["oracle"]["known"] = "K9"
     rec["nontrivial"] = inp["n_items"] >= 2 or any(type(b).__name__ == "Entry" and b.fields for b in l1.blocks)
     rec["summary"] = repr(t1)[:200]
     return rec
